@@ -304,7 +304,8 @@ def parse_assumptions(out):
             cur = []
             blocks.append(cur)
         elif cur is not None:
-            m = re.match(r"^([A-Za-z_][A-Za-z0-9_.']*)\s*:", line)
+            # "<name> : <type>" or, for long types, "<name>" alone with "  : <type>" on the following lines
+            m = re.match(r"^([A-Za-z_][A-Za-z0-9_.']*)\s*(:|$)", line)
             if m:
                 cur.append(m.group(1))
     return blocks
